@@ -44,6 +44,8 @@ def gen_tree(rng, b, depth=0):
             if rng.random() < 0.4:
                 member.append(("w", ("n", [("v", ("l", rng.choice(DT), b[1:]))])))
             out.append((k, ("lz", [member] * b[0])))
+        elif r < 0.18 and r >= 0.14 and len(b) >= 1 and b[0] > 0:
+            out.append((k, ("nts", rng.choice(["s", "item", "z"]))))
         elif r < 0.14 and k.isalpha():
             # a tensorclass instance (two tensor fields, one string field) as an entry
             out.append((k, ("tc", rng.choice([torch.float32, torch.int16, torch.uint8]), rng.choice(["T", "tag1", "x"]))))
@@ -65,6 +67,14 @@ def build(spec, b, device, base=0):
             d[k] = mk_tensor(None, v[1], v[2], (base * 7 + i * 3 + 1) % 19)
         elif v[0] == "nt":
             d[k] = NonTensorData(v[1], batch_size=b)
+        elif v[0] == "nts":
+            from tensordict import NonTensorStack
+
+            def nts_of(shape, pre):
+                if len(shape) == 1:
+                    return NonTensorStack(*[NonTensorData(f"{v[1]}{pre}{j}", batch_size=[]) for j in range(shape[0])])
+                return NonTensorStack(*[nts_of(shape[1:], f"{pre}{j}-") for j in range(shape[0])])
+            d[k] = nts_of(b, "")
         elif v[0] == "tc":
             import c11_trips
             d[k] = c11_trips.tc_cls()(u=mk_tensor(None, v[1], b + [2], (base + i) % 17), v=mk_tensor(None, torch.int16, b, (base + i + 1) % 17), tag=v[2], batch_size=b)
@@ -74,6 +84,11 @@ def build(spec, b, device, base=0):
         else:
             d[k] = build(v[1], b, device, base + i + 1)
     return TensorDict(d, batch_size=b, device=device)
+
+
+def nts_data(v):
+    """the payloads of a NonTensorStack as one atom: the nested list with `<` `>` for brackets"""
+    return json.dumps(v.tolist(), separators=(",", ":")).replace("[", "<").replace("]", ">").replace('"', "").replace(",", ":")
 
 
 def tc_fields(tc):
@@ -89,9 +104,12 @@ def td_sx(td):
     if is_tensorclass(td) and not isinstance(td, NonTensorData):
         return sx("tc", type(td).__name__, tc_fields(td), ["_tensordict", Raw(td_sx(td._tensordict))])
     parts = ["n", list(td.batch_size), "cpu"]
+    from tensordict import NonTensorStack
     for k, v in td.items():
         if isinstance(v, NonTensorData):
             parts.append([k, ["nt", v.data, list(v.batch_size)]])
+        elif isinstance(v, NonTensorStack):
+            parts.append([k, ["nts", nts_data(v), v.stack_dim]])
         elif is_tensorclass(v):
             parts.append([k, Raw(td_sx(v))])
         elif isinstance(v, TensorDictBase):
@@ -109,9 +127,12 @@ def tree_of(td):
     if is_tensorclass(td) and not isinstance(td, NonTensorData):
         return ["tc", type(td).__name__, tc_fields(td), ["_tensordict", tree_of(td._tensordict)]]
     out = ["n", list(td.batch_size), "cpu" if td.device is None else str(td.device)]
+    from tensordict import NonTensorStack
     for k, v in td.items():
         if isinstance(v, NonTensorData):
             out.append([k, ["nt", v.data, list(v.batch_size)]])
+        elif isinstance(v, NonTensorStack):
+            out.append([k, ["nts", nts_data(v), v.stack_dim]])
         elif is_tensorclass(v):
             out.append([k, tree_of(v)])
         elif isinstance(v, TensorDictBase):
@@ -150,6 +171,8 @@ def listing(root: Path):
                 out.append([rel, ["meta", kind, m.get("data")]])
             elif kind == "LazyStackedTensorDict":
                 out.append([rel, ["meta", kind, [m.get("stack_dim"), m.get("len")], "None", []]])
+            elif kind == "NonTensorStack":
+                out.append([rel, ["meta", kind, json.dumps(m.get("data"), separators=(",", ":")).replace("[", "<").replace("]", ">").replace('"', "").replace(",", ":")]])
             elif kind != "TensorDict":
                 # a tensorclass: `_type` and its non-tensor fields
                 out.append([rel, ["meta", kind, ",".join(f"{k}={v}" for k, v in sorted(m.items()) if k != "_type") or "nofields"]])
@@ -193,6 +216,8 @@ def model_tree(t):
         return ["nt", t[1], list(t[2])]
     if t[0] == "lz":
         return ["lz", t[1]] + [[str(k), model_tree(v)] for k, v in t[2:]]
+    if t[0] == "nts":
+        return ["nts", t[1], t[2]]
     if t[0] == "tc":
         return ["tc", t[1], t[2]] + [[str(k), model_tree(v)] for k, v in t[3:]]
     return ["n", list(t[1]), t[2]] + [[k, model_tree(v)] for k, v in t[3:]]
@@ -531,6 +556,13 @@ def td_from_tree(t):
             d[k] = tensor_from(v[1], list(v[2]), list(v[3]))
         elif v[0] == "nt":
             d[k] = NonTensorData(v[1], batch_size=list(v[2]))
+        elif v[0] == "nts":
+            from tensordict import NonTensorStack
+
+            def nts_from(x):
+                return NonTensorStack(*[nts_from(y) for y in x]) if isinstance(x, list) else NonTensorData(x, batch_size=[])
+            import re as _re
+            d[k] = nts_from(json.loads(_re.sub(r"([^<>:]+)", r'"\1"', str(v[1])).replace("<", "[").replace(">", "]").replace(":", ",")))
         else:
             d[k] = td_from_tree(v)
     return TensorDict(d, batch_size=list(t[1]))
